@@ -181,6 +181,18 @@ pub fn run(ctx: &Ctx) -> Report {
     }
     total.merge(st);
     total.exhaustive_parts.push("chains of 2..300 operands (and / or / ',') with the only action first, in the middle or last; 1..100 nested negations above an action".into());
+    // chains nested to the left and to the right, the only action at a chosen operand position
+    let spines = crate::combo::spine_trees(ctx.tier.pick(300, 1000));
+    let sp = run_shards(16, |shard| {
+        let mut st = Stats::new();
+        for (i, (t, what)) in spines.iter().enumerate().filter(|(i, _)| i % 16 == shard) {
+            let v = judge(t, false);
+            st.record(&v, stable_hash(t), true, || json!({"kind": "tree", "what": what, "tree": term::encode_expr(t)}));
+        }
+        st.samples.truncate(1);
+        st
+    });
+    total.merge(sp);
     // interaction triples: three supported leaf kinds under every operator skeleton
     let tr = crate::combo::run_triples(ctx.seed, &crate::combo::supported_kinds(), ctx.tier.pick(32, 2), |t| judge(t, stable_hash(t) % 4 == 0), |t| case_json(t, stable_hash(t) % 4 == 0));
     total.merge(tr);
